@@ -32,8 +32,15 @@ def handleRun (req : List String) (obs : List String) : String :=
   | none => "bad-request"
   | some (r, _) =>
     let inp := reqToRunIn r
-    let out := run Sha1.sha1 inp
+    let out0 := run Sha1.sha1 inp
+    -- an emulated crash: the model's observation is the log prefix and the tree it replays to
+    let out := match r.crash with
+      | none => out0
+      | some (k, j) =>
+        let (fs', prefixOps) := TB.Check.crashState inp.fs out0.ops k j []
+        { out0 with fs := fs', ops := prefixOps, result := .ok () }
     let m := modelObs out
+    let m := if r.crash.isSome then { m with result := "crash" } else m
     match pRunObs obs with
     | none => verdict false ["run-unparsable-observation"] (showRunObs m)
     | some i =>
@@ -42,11 +49,15 @@ def handleRun (req : List String) (obs : List String) : String :=
         (if i.result == m.result then [] else ["result"]) ++
         (if r.threads ≤ 1 then
           (match firstDiff i.ops m.ops 0 with | none => [] | some k => ["ops@" ++ toString k]) ++
-          (if i.counters == m.counters then [] else ["counters"])
+          (if r.crash.isSome then (if i.counters == m.counters.take i.counters.length then [] else ["counters"])
+           else if i.counters == m.counters then [] else ["counters"])
          else []) ++
-        (if i.total == m.total then [] else ["total"]) ++
-        (if i.dirs == m.dirs then [] else ["dirs"]) ++
-        (if i.files == m.files then [] else ["files"]) ++
+        (if r.crash.isSome || i.total == m.total then [] else ["total"]) ++
+        -- with several workers the numbering of operations (hence which operation an injected fault hits)
+        -- depends on the interleaving: the final tree is then judged by the property checkers only
+        (if r.threads > 1 && !r.faults.isEmpty then [] else
+          (if i.dirs == m.dirs then [] else ["dirs"]) ++
+          (if i.files == m.files then [] else ["files"])) ++
         (if out.resolutionOk then [] else ["resolution-not-admissible"])
       let fails := TB.Check.checkRun Sha1.sha1 r inp out i
       verdict diffs.isEmpty fails ((if diffs.isEmpty then "" else "DIFF:" ++ ",".intercalate diffs ++ " ") ++ showRunObs m)
